@@ -17,7 +17,7 @@ from ..engine import R, Sub
 
 PROPERTY = 'C01'
 ASSUMPTIONS = [
-    'segments are drawn from the menu k,1,s,0,zz,7,-1,-2," 1","","k.k" (a dotted segment only inside Path(...); no wildcard segments; those are C14)',
+    'segments are drawn from the menu k,1,s,0,zz,7,-1,-2," 1","","k.k" (a dotted segment only inside Path(...)), "count" (a method name of list / tuple / dict objects; no wildcard segments; those are C14)',
     'targets: dict, dict with int and digit-string keys, OrderedDict, list, tuple, attribute object; '
     'leaves None, 0, "v", {}, [], (), object without attributes',
     'reading of the access rule: mapping -> cur[seg]; list/tuple -> cur[int(seg)]; otherwise getattr',
@@ -25,7 +25,7 @@ ASSUMPTIONS = [
 
 KINDS = ['dict', 'dictn', 'odict', 'list', 'tuple', 'obj']
 LEAVES = ['none', 'zero', 'str', 'edict', 'elist', 'etuple', 'eobj']
-MENU = ['k', '1', 's', '0', 'zz', '7', '-1', '-2', ' 1', '', 'k.k']
+MENU = ['k', '1', 's', '0', 'zz', '7', '-1', '-2', ' 1', '', 'k.k', 'count']
 VALID = {'dict': 'k', 'dictn': '1', 'odict': 'k', 'list': '1', 'tuple': '1', 'obj': 'k'}
 INTLIKE = re.compile(r'^-?\d+$')
 
@@ -195,7 +195,13 @@ def run_case(case):
                 if got[0] != 'ok':
                     return R({'expected': 'value %r' % (want,), 'observed': 'raised %r' % (got[1],), **where}, 'ok')
                 res = got[1]
-                same = (res is ident_in(t, rt, want))
+                if hasattr(want, '__self__') and hasattr(want, '__name__'):
+                    # a bound method is a new object on every access: same name, bound to the corresponding object
+                    owner = ident_in(t, rt, want.__self__)
+                    same = (getattr(res, '__name__', None) == want.__name__ and hasattr(res, '__self__')
+                            and (res.__self__ is owner or (owner is None and res.__self__ == want.__self__)))
+                else:
+                    same = (res is ident_in(t, rt, want))
                 if not same:
                     return R({'expected': 'the object reached by the plain walk (identity)',
                               'observed': repr(res), **where}, 'ok')
